@@ -43,6 +43,18 @@ func preamble(b *builder, kind int) {
 		b.add("/* 一")
 		b.add("二")
 		b.add("三 */")
+	case 5: // comment with an empty line inside
+		b.add("/* 一")
+		b.add("")
+		b.add("")
+		b.add("三 */")
+	case 6: // 注 comment and literal with empty lines inside
+		b.add("注：「一")
+		b.add("")
+		b.add("三」")
+		b.add("令甲文 = “一")
+		b.add("")
+		b.add("三”")
 	}
 }
 
@@ -114,7 +126,7 @@ func reversed(a []int) []int {
 // The report must name the line of the innermost statement and exactly the
 // calls active at that moment with their call-site lines.
 func H_RuntimeChain() {
-	pre := zv.Choose(5)
+	pre := zv.Choose(7)
 	eol := eols[zv.Choose(len(eols))]
 	earlier := zv.Choose(4) // 0: none; otherwise an earlier exception handled 0, 1 or 2 calls above its raise point
 	d := zv.Int("D", 0, 2)
